@@ -104,7 +104,7 @@ func runGroups(e *Env) {
 	} else {
 		gw = newGateway(e, gwIP, gwPort)
 		gw.RawOf = map[int][]byte{}
-		gw.Window = 1 // in-order, lossless: what must surface is then known exactly
+		gw.Window = 1               // in-order, lossless: what must surface is then known exactly
 		gw.OnBus = func(c []byte) { // loop back as an indication
 			ind := append([]byte(nil), c...)
 			ind[0] = 0x29
